@@ -191,7 +191,7 @@ func (w *e2eWorld) exchange(m *msg) (reqErr, resErr bool, err error) {
 
 // wireable: can the exchange be put on the wire unchanged (see the file comment).
 func wireable(m *msg) bool {
-	if m.api || m.scheme != "http" || m.path == "" || m.host == "" {
+	if m.api || m.scheme != "http" || m.path == "" || m.host == "" || m.method == "CONNECT" {
 		return false
 	}
 	for _, h := range [][][]string{m.reqH, m.resH} {
